@@ -36,19 +36,13 @@ Print Assumptions C20_days_civil.
    Format.Parse of the format on  text ++ rest  is the instant the text denotes. *)
 Definition C20_self_statement : Prop := self_statement.
 
-(* refuted on the tables as they are: the DDDD regexp [A-Z][a-z]{5,7} rejects the nine-letter "Wednesday" *)
-Theorem C20_self_refuted : ~ C20_self_statement.
-Proof. exact self_refuted. Qed.
-Print Assumptions C20_self_refuted.
-
-(* ... and proved for every other format of both tables, for all civil times and continuations, with no enumeration
-   of instants: format_ok (decidable, evaluated on the generated tables) implies the statement (format_ok_sound) *)
-Theorem C20_self_partial : forall f, In f all_formats -> f <> dddd_format ->
-  exists l cf, tokens terms_table f = Some l /\ compile_with terms_table f = Some cf /\
-    forall now c rest, civil_ok l c -> sep_ok rest ->
-      parse_one now cf (render_toks l c ++ rest) = Some (denotes now l c).
-Proof. exact self_of_table. Qed.
-Print Assumptions C20_self_partial.
+(* proved for every format of both tables as they are now, for all civil times and continuations, with no enumeration of
+   instants: format_ok (decidable, evaluated by vm_compute on the tables regenerated from the Go literals) implies the
+   statement (format_ok_sound).  (Before the DDDD regexp was repaired - [A-Z][a-z]{5,7} rejected the nine letters of
+   "Wednesday" - format_ok failed for "DDDD, YY-MMM-DD HH:mm:ss ZZZ" and the statement was refuted by that format.) *)
+Theorem C20_self : C20_self_statement.
+Proof. exact self_holds. Qed.
+Print Assumptions C20_self.
 
 (* the side condition is not specific to these tables: for ANY terms table and format that pass format_ok *)
 Theorem C20_format_ok_sound : forall terms f l cf,
@@ -59,19 +53,22 @@ Proof. exact format_ok_sound. Qed.
 Print Assumptions C20_format_ok_sound.
 
 (* ---- the whole list: first match ----
-   Full statement: parser.Parse over the whole list returns, for the text of the k-th format, the instant it denotes. *)
-Definition C20_first_match_statement : Prop := first_match_statement known_formats.
+   Statement for a list of formats: parser.Parse over the whole list returns, for the text of its k-th format, the instant
+   the text denotes. *)
+Definition C20_first_match_statement (formats : list bytes) : Prop := first_match_statement formats.
 
-(* refuted for the collector's list: "2019/05/25 15:07:09" (format 28, YYYY/MM/DD HH:mm:ss) is claimed by the earlier,
-   unanchored "D/M/YY HH:mm" (format 19) through the substring "19/05/25 15:07" and read as 2025-05-19 15:07:00 *)
-Theorem C20_first_match_refuted : ~ C20_first_match_statement.
-Proof. exact first_match_refuted. Qed.
-Print Assumptions C20_first_match_refuted.
+(* it depends on the order: with "D/M/YY HH:mm" in front of "YYYY/MM/DD HH:mm:ss" (the order both lists had before they
+   were repaired) "2019/05/25 15:07:09" is claimed through the substring "19/05/25 15:07" and read as 2025-05-19 15:07:00 *)
+Theorem C20_first_match_bad_order_refuted : ~ C20_first_match_statement bad_order.
+Proof. exact first_match_bad_order_refuted. Qed.
+Print Assumptions C20_first_match_bad_order_refuted.
 
-(* proved for any list drawn from the tables, any k, any civil time, any continuation, under the one hypothesis that
-   no EARLIER format of the list parses the text: then the k-th format is the one that answers, with the right instant *)
+(* proved for any list drawn from the tables (in particular the collector's and the LQL list as they are), any k, any
+   civil time, any continuation, under the one hypothesis that no EARLIER format of the list parses the text: then the k-th
+   format is the one that answers, with the right instant.  (The hypothesis is not decided by proof for the lists as they
+   are: K samples every format x 24 instants on every run and the oracle names any claiming format.) *)
 Theorem C20_first_match_partial : forall formats, (forall f, In f formats -> In f all_formats) ->
-  forall k f, nth_error formats k = Some f -> f <> dddd_format ->
+  forall k f, nth_error formats k = Some f ->
   forall now c rest, civil_ok (the_tokens f) c -> sep_ok rest ->
   let text := render_toks (the_tokens f) c ++ rest in
   (forall j fj, (j < k)%nat -> nth_error formats j = Some fj ->
@@ -81,22 +78,22 @@ Proof. exact first_match_partial. Qed.
 Print Assumptions C20_first_match_partial.
 
 (* ---- LQL literals ----
-   Full statement: an absolute literal written in the k-th LQL format is the Unix nanoseconds of the instant it denotes. *)
-Definition C20_lql_abs_statement : Prop := lql_abs_statement.
+   Full statement: an absolute literal written in the k-th LQL format is the Unix nanoseconds of the instant it denotes.
+   [lower] = the format list sees the lower-cased literal (the code before the fix of parseLqlDateTime); the code as it
+   is (code_lowers_absolute = false, which K runs the model with) lower-cases only for the relative form and the constants *)
+Definition C20_lql_abs_statement (lower : bool) : Prop := lql_abs_statement lower.
 
-(* refuted: parseLqlDateTime lower-cases the literal first; "2019-05-25T15:07:09" becomes "...t..." and is read as
-   midnight by the later date-only format *)
-Theorem C20_lql_abs_refuted : ~ C20_lql_abs_statement.
-Proof. exact lql_abs_refuted. Qed.
-Print Assumptions C20_lql_abs_refuted.
+(* refuted for the old code: "2019-05-25T15:07:09" became "...t..." and was read as midnight by the later date-only format *)
+Theorem C20_lql_abs_lowercased_refuted : ~ C20_lql_abs_statement true.
+Proof. exact lql_abs_lowercased_refuted. Qed.
+Print Assumptions C20_lql_abs_lowercased_refuted.
 
-(* proved for literals that survive trimming and lower-casing, are neither relative nor a constant, and are not
-   claimed by an earlier format *)
-Theorem C20_lql_abs_partial : forall k f, nth_error lql_formats k = Some f -> f <> dddd_format ->
+(* proved for the code: every literal (blanks around it allowed) written in a format of the LQL table that is neither relative nor a constant when lower-cased and is not claimed by an earlier format *)
+Theorem C20_lql_abs_partial : forall k f, nth_error lql_formats k = Some f ->
   forall now c lit, civil_ok (the_tokens f) c ->
   let text := render_toks (the_tokens f) c in
-  to_lower (trim_sp lit) = text ->
-  parse_relative text = None -> index_of text const_names 0 = None ->
+  trim_sp lit = text ->
+  parse_relative (to_lower text) = None -> index_of (to_lower text) const_names 0 = None ->
   (forall j fj, (j < k)%nat -> nth_error lql_formats j = Some fj ->
      exists cj, compile_with terms_table fj = Some cj /\ parse_one now cj text = None) ->
   lql_parse now lql_list lit = LAbs (nanos (denotes now (the_tokens f) c)).
@@ -133,15 +130,15 @@ Print Assumptions C20_relative_monotone.
    lines the last detected date without looking at them. *)
 
 (* the remembered format is the line's format: the record gets the instant the text denotes, in EVERY parser state
-   (any counters, parsing or skipping), for every format of the tables but the DDDD one, every civil time, every
+   (any counters, parsing or skipping), for every format of the collector's table, every civil time, every
    separator-led rest of the line *)
-Theorem C20_line_current_format : forall f, In f known_formats -> f <> dddd_format ->
+Theorem C20_line_current_format : forall f, In f known_formats ->
   forall k cf, nth_error collector_list k = Some (Some cf) -> compile_with terms_table f = Some cf ->
   forall now s c rest, lp_cur s = Some k -> civil_ok (the_tokens f) c -> sep_ok rest ->
   lp_step now collector_list s (render_toks (the_tokens f) c ++ rest) = (s, Some (denotes now (the_tokens f) c)).
 Proof.
-  intros f Hin Hne k cf Hk Hcf now s c rest Hcur Hc Hs.
-  destruct (self_of_table f (in_or_app _ _ _ (or_introl Hin)) Hne) as (l & cf' & Ht & Hcf' & Hp).
+  intros f Hin k cf Hk Hcf now s c rest Hcur Hc Hs.
+  destruct (self_of_table f (in_or_app _ _ _ (or_introl Hin))) as (l & cf' & Ht & Hcf' & Hp).
   rewrite Hcf in Hcf'. injection Hcf' as <-.
   assert (El : the_tokens f = l) by (unfold the_tokens; rewrite Ht; reflexivity). rewrite El in *.
   apply (step_by_cur code_resets_counter now collector_list s _ k cf _ Hcur Hk). apply Hp; assumption.
@@ -192,9 +189,9 @@ Print Assumptions C20_line_counters.
 
 (* ---- non-vacuity ---- *)
 (* a Saturday afternoon satisfies civil_ok for every token list, a format of the table satisfies the hypotheses of
-   C20_self_partial, and the earlier-format hypothesis of C20_first_match_partial holds for the first format *)
+   C20_self, and the earlier-format hypothesis of C20_first_match_partial holds for the first format *)
 Example C20_civil_ok_nonvacuous : forall l, civil_ok l w_sat.
 Proof. exact civil_ok_sat. Qed.
 
-Example C20_self_nonvacuous : In f_iso all_formats /\ f_iso <> dddd_format.
-Proof. split; [apply in_by_eqb; vm_compute; reflexivity|discriminate]. Qed.
+Example C20_self_nonvacuous : In f_iso all_formats.
+Proof. apply in_by_eqb; vm_compute; reflexivity. Qed.
